@@ -4,6 +4,7 @@ import (
 	"fmt"
 	"go/constant"
 	"go/token"
+	"go/types"
 	"os"
 	"strings"
 
@@ -672,15 +673,36 @@ func rulePasswordPure(c *Ctx, rule string) {
 			}
 		}
 		if bad == "" {
+			// remembered state may only stand in for the computation when it is looked up
+			// under a key that names both inputs (a memo keyed by (secret, username))
 			var g *ssa.Global
+			var lookups []*ssa.Lookup
 			w.depWalk(r.Results[0], nil, func(x ssa.Value, _ []*ssa.Call) bool {
 				if gg, ok := x.(*ssa.Global); ok && gg.Pkg != nil && strings.HasPrefix(gg.Pkg.Pkg.Path(), modPath) && !strings.HasPrefix(gg.Name(), "err") {
 					g = gg
 				}
+				if lk, ok := x.(*ssa.Lookup); ok {
+					if _, isMap := lk.X.Type().Underlying().(*types.Map); isMap {
+						lookups = append(lookups, lk)
+					}
+				}
 				return false
 			})
 			if g != nil {
-				bad = "the password returned at " + w.instrPos(r) + " is computed from package-level state (" + g.Name() + "), not only from the username and the secret"
+				keyed := len(lookups) > 0
+				for _, lk := range lookups {
+					// the index, expressed through the helper's own parameters, must depend on both
+					// of the derivation's inputs: judged from the derivation function's call of the
+					// helper (depWalk maps parameters through the call stack)
+					for _, p := range fn.Params {
+						if !w.lookupKeyDependsOn(fn, lk, p) {
+							keyed = false
+						}
+					}
+				}
+				if !keyed {
+					bad = "the password returned at " + w.instrPos(r) + " is taken from package-level state (" + g.Name() + ") that is not looked up under a key made of both the username and the secret"
+				}
 			}
 		}
 	}
@@ -692,4 +714,24 @@ func rulePasswordPure(c *Ctx, rule string) {
 	default:
 		c.OK(rule, fname(fn), "longTermCredentials", w.pos(fn.Pos()), fmt.Sprintf("%d success return(s): HMAC over the username keyed by the secret, nothing else", n))
 	}
+}
+
+// lookupKeyDependsOn: the index of map lookup lk (in fn or in a helper fn calls) depends on
+// parameter p of fn: in fn itself directly; in a helper, through the arguments of fn's call.
+func (w *World) lookupKeyDependsOn(fn *ssa.Function, lk *ssa.Lookup, p *ssa.Parameter) bool {
+	if lk.Parent() == fn {
+		return w.dependsOn(lk.Index, func(x ssa.Value) bool { return x == ssa.Value(p) }, fn)
+	}
+	h := lk.Parent()
+	found := false
+	w.eachInstr(fn, func(in ssa.Instruction) {
+		call, ok := in.(*ssa.Call)
+		if !ok || call.Call.StaticCallee() != h || found {
+			return
+		}
+		if w.depWalk(lk.Index, []*ssa.Call{call}, func(x ssa.Value, _ []*ssa.Call) bool { return x == ssa.Value(p) }) {
+			found = true
+		}
+	})
+	return found
 }
